@@ -16,6 +16,9 @@ ENGINES["row"] = {"path": "harness/src/row.rs",
 ENGINES["scn"] = {"path": "harness/src/scn.rs (+ prog.rs)",
     "kind": "whole walks over synthesized programs with ground truth: functions from the standard prologue/epilogue shapes with real instruction bytes and the CFI rows that exactly describe every instruction boundary (x86-64: frame-pointer based, frameless with pushes/allocation incl. rbp saved and clobbered, leaf, noreturn tail call; aarch64: stp-pre-index and sub/stp/add frames, leaf, return-address signing with DW_CFA_AARCH64_negate_ra_state), call chains of depth 1-7, every interruption point of the innermost frame, three presentations, both allocation policies, missing unwind info in five ways (C04), every truncation cut (C11), relocation/presentation twins (C08/C12). Ground truth from a machine-state simulator, re-validated step by step by the Lean driver's dwarfSpec before it is used"}
 
+ENGINES["pe"] = {"path": "harness/src/pe.rs",
+    "kind": "PE x64: writer for .pdata / UNWIND_INFO (.xdata) and .text; synthesized programs over the MS prolog/epilog grammar (push non-volatiles, alloc small/large, set frame register, save non-volatile by mov, functions split into chained fragments, leaf functions without table entry), walks with ground truth at every instruction boundary (prolog, body, epilog); differential part on arbitrary registers/stacks incl. unusual codes (xmm, machine frame, raw large allocations) against the Lean model and against pe-unwind-info's reference implementation of the Microsoft procedure; exhaustive register-order sweep through the hooks"}
+
 NOT_APPLICABLE = {}
 
 _NOTE = ("Trusted: Lean kernel; axioms propext/Classical.choice/Quot.sound only (audited per theorem on every run); "
@@ -26,7 +29,7 @@ _NOTE = ("Trusted: Lean kernel; axioms propext/Classical.choice/Quot.sound only 
 PROPS = {
     "C09": {
         "lean": ["FH.Props.C09"],
-        "engines": ["rule", "hist"],
+        "engines": ["rule", "hist", "pe", "row", "scn"],
         "level_text": "Theorems: rule execution on both architectures has no reachable panic for all parameters/registers/readers; checked_add_signed equals the mathematical definition. The model is tied to the code by executing every generated case on both; every case is also run on the implementation under catch_unwind with overflow checks on.",
         "level_note": _NOTE,
         "statement": "No model function has a reachable panic outcome: rule execution (both architectures, all parameter values of the Rust field types, all registers, all stack readers), checked_add_signed, the pointer-auth mask constructor. Every model function is total in Lean (structural recursion).",
@@ -129,5 +132,12 @@ PROPS = {
         "level_text": "Theorems: the three presentations resolve every relative address identically (hence the same plan); for pairwise disjoint FDEs in any section order the lookup finds the FDE covering the address (stable sort by start + last-start-not-above search, proved against containment); section order is irrelevant; addresses no FDE covers never get a row, in every presentation. Tie: every generated module is written in one of the three presentations with shuffled FDE order, several CIEs and mixed pointer encodings; the scn twins compare presentations directly.",
         "level_note": _NOTE + " gimli's EhHdrTable::lookup is trusted to return the last table entry whose initial location is not above the address (first entry if none); the table is written sorted, as linkers do.",
         "statement": "Same CFI, any presentation.",
+    },
+    "C03": {
+        "lean": ["FH.Props.C03"],
+        "engines": ["pe"],
+        "level_text": "Theorems: an address without a function table entry is a frameless leaf; PE on aarch64 falls back; the cacheable rule OffsetSpAndPopRegisters performs exactly the documented procedure for push/alloc prologs (popSpec over unbounded naturals) and so does the operation interpreter on the same prolog - compression is lossless (given the register-order round trip, which is kernel-checked only up to length 2 here and exhaustively tested on the implementation for all 109 601 orderings); interpreted steps are all-or-nothing, advance rsp in caller frames and set ip; framehop's own epilog simulation never panics. Tie: pe engine - ground-truth walks at every instruction boundary of synthesized PE programs, per-step comparison with the Lean model (plan + interpreter incl. pe-unwind-info's resolve_operation) and with pe-unwind-info's reference implementation of the Microsoft unwind procedure on arbitrary registers and stacks.",
+        "level_note": _NOTE + " pe-unwind-info's parsers (function table lookup, UNWIND_INFO parsing, unwind code iteration, epilog instruction parsing) are outside the model; the model takes their output, recomputed by the harness with the real parsers. Known finding F8-dep (C09): unchecked arithmetic inside pe-unwind-info's resolve_operation.",
+        "statement": "PE x64: leaf rule without table entry; pop-rule compression lossless; interpreter and rule equal the documented procedure; progress and atomicity of interpreted steps.",
     },
 }
